@@ -94,7 +94,14 @@ fn outcome_bytes(b: &[u8]) -> Outcome {
 }
 
 fn outcome_reader(b: &[u8], schedule: Vec<Step>, default_chunk: usize) -> (Outcome, Vec<Call>) {
+    outcome_reader_at(b, 0, schedule, default_chunk)
+}
+
+/// `data[start..]` is the frame: the reader is positioned at `start` (e.g. the n-th frame of a stream).
+fn outcome_reader_at(data: &[u8], start: usize, schedule: Vec<Step>, default_chunk: usize) -> (Outcome, Vec<Call>) {
+    let b = data;
     let mut rd = HostileReader::new(b, schedule, default_chunk);
+    rd.pos = start;
     let r = mon::guarded(|| Frame::from_reader(&mut rd));
     let o = match r {
         Ok(Ok(f)) => Outcome::Ok { debug: format!("{:?}", f.df), crc: f.crc },
@@ -219,6 +226,30 @@ pub fn run(ctx: &Ctx) -> i32 {
                         sig: format!("C19|{what}|{kind}"),
                         detail: format!("from_reader under schedule [{}] (then chunks of {dc}) gave {o:?}; from_bytes gives {base:?}; call trace {:?}", sched_text(&s), &t[..t.len().min(40)]),
                         input: json!({"frame_hex": hex(&bytes), "schedule": sched_text(&s), "default_chunk": if dc == usize::MAX { 0 } else { dc }}),
+                    });
+                }
+            }
+            // a reader that is not at offset 0 when decoding starts (second frame of a stream, a file offset)
+            for _ in 0..3 {
+                let plen = r.range(1, 40) as usize;
+                let mut stream = vec![0u8; plen];
+                r.fill(&mut stream);
+                stream.extend_from_slice(&bytes);
+                let sched: Vec<Step> = match r.below(3) {
+                    0 => vec![],
+                    1 => (0..20).map(|_| Step::Chunk(r.range(1, 4) as usize)).collect(),
+                    _ => (0..30).map(|_| if r.chance(0.3) { Step::Interrupt } else { Step::Chunk(r.range(1, 9) as usize) }).collect(),
+                };
+                let dc = *r.pick(&[1usize, usize::MAX]);
+                let (o, t) = outcome_reader_at(&stream, plen, sched.clone(), dc);
+                col.count("schedules_run", 1);
+                col.count("schedules_start_offset", 1);
+                if o != base {
+                    col.add(Finding {
+                        prop: "C19".into(),
+                        sig: "C19|reader_differs_from_slice|start_offset".to_string(),
+                        detail: format!("from_reader on a reader positioned at offset {plen} gave {o:?}; from_bytes of the same bytes gives {base:?}; call trace {:?}", &t[..t.len().min(30)]),
+                        input: json!({"frame_hex": hex(&bytes), "prefix_len": plen, "schedule": sched_text(&sched)}),
                     });
                 }
             }
